@@ -30,7 +30,10 @@ Allowed(a) == \A l \in Limits : CountYounger(a, l[2]) < l[1]
 (* What the code remembers after prune_log.  Correct: entries younger than the    *)
 (* longest period.  Deviation: pruned with the shortest one.                       *)
 MinP == CHOOSE p \in {l[2] : l \in Limits} : \A l \in Limits : p <= l[2]
-Prune(a) == LET keep == IF "PruneWithShortest" \in Deviations THEN MinP ELSE MaxLimitP
+(* another way to get it wrong: the limits sorted by count instead of by period, the "first" one taken as the longest *)
+PofMaxN == LET l == CHOOSE l \in Limits : \A m \in Limits : m[1] <= l[1] IN l[2]
+Prune(a) == LET keep == IF "PruneWithShortest" \in Deviations THEN MinP
+                        ELSE IF "PruneByLargestCount" \in Deviations THEN PofMaxN ELSE MaxLimitP
             IN SelectSeq(a, LAMBDA x : x < keep)
 
 Init == ages = <<>> /\ waiting = FALSE /\ waited = 0 /\ bad = {}
